@@ -282,23 +282,35 @@ func jsonStr(s string, escapeAll bool) string {
 }
 
 // body shapes that decode (encoding/json) to the logical method `m`
-func bodyShape(r *gen.Rand, m string) (string, string) {
+// `decoy` is another method name (chosen by the caller as one the configuration allows, if there is one): it
+// appears under keys that encoding/json overrides with a later case-insensitively matching key, so the logical
+// method of every shape is `m` — the access control must judge `m`, not the decoy.
+func bodyShape(r *gen.Rand, m, decoy string) (string, string) {
 	mj := jsonStr(m, false)
-	switch r.Intn(9) {
+	dj := jsonStr(decoy, false)
+	switch r.Intn(13) {
+	case 9:
+		return fmt.Sprintf(`{"method":%s,"Method":%s,"params":[{}],"id":10}`, dj, mj), "exact-then-fold"
+	case 10:
+		return fmt.Sprintf(`{"method":%s,"params":[{}],"id":11,"mEthod":%s}`, dj, mj), "exact-then-fold-late"
+	case 11:
+		return fmt.Sprintf(`{"Method":"x","method":%s,"METHOD":%s,"params":[{}],"id":12}`, dj, mj), "fold-exact-fold"
+	case 12:
+		return fmt.Sprintf(`{"method":%s,"id":13,"params":[{}],"method":%s,"Method":%s}`, dj, dj, mj), "dup-exact-then-fold"
 	case 0:
 		return fmt.Sprintf(`{"method":%s,"params":[{}],"id":1}`, mj), "plain"
 	case 1:
 		return fmt.Sprintf(`{"Method":%s,"Params":[{}],"ID":7}`, mj), "key-case"
 	case 2:
-		return fmt.Sprintf(`{"method":"Probe.Ping","method":%s,"params":[null],"id":2}`, mj), "dup-key-last-wins"
+		return fmt.Sprintf(`{"method":%s,"method":%s,"params":[null],"id":2}`, dj, mj), "dup-key-last-wins"
 	case 3:
-		return fmt.Sprintf(`{"method":%s,"params":[{}],"id":3,"extra":{"method":"Probe.Ping"},"jsonrpc":"2.0"}`, mj), "extra-fields"
+		return fmt.Sprintf(`{"method":%s,"params":[{}],"id":3,"extra":{"method":%s,"Method":%s},"jsonrpc":"2.0"}`, mj, dj, dj), "extra-fields"
 	case 4:
 		return fmt.Sprintf(`{"method":%s,"params":[],"id":4}`, jsonStr(m, true)), "unicode-escaped"
 	case 5:
 		return fmt.Sprintf(" \n\t{ \"id\" : 5 , \"params\" : [ {} , 1, 2 ] , \"method\" : %s }\n", mj), "whitespace-extra-params"
 	case 6:
-		return fmt.Sprintf(`{"METHOD":"Probe.Ping","method":%s,"params":[{}],"id":6}`, mj), "fold-then-exact"
+		return fmt.Sprintf(`{"METHOD":%s,"method":%s,"params":[{}],"id":6}`, dj, mj), "fold-then-exact"
 	case 7:
 		return fmt.Sprintf(`{"method":%s,"id":8}`, mj), "no-params"
 	default:
@@ -657,6 +669,18 @@ func genCred(r *gen.Rand, c cfgT) cred {
 	return cred{present: true, u: c.user, p: c.pass, scheme: "Bearer"}
 }
 
+// a probe method the configuration's method lists allow (if any), else Probe.Ping
+func allowedDecoy(r *gen.Rand, c cfgT) string {
+	k := r.Intn(len(funcs))
+	for d := 0; d < len(funcs); d++ {
+		m := "Probe." + funcs[(k+d)%len(funcs)]
+		if methodOK(c.jWL, c.jBL, m) {
+			return m
+		}
+	}
+	return "Probe.Ping"
+}
+
 func genMethod(r *gen.Rand) string {
 	f := funcs[r.Intn(len(funcs))]
 	switch r.Pick(10, 1, 1, 1, 1, 1, 1) {
@@ -692,7 +716,7 @@ func main() {
 		for q := 0; q < 14; q++ {
 			i := genIP(r, pool)
 			m := genMethod(r)
-			body, shape := bodyShape(r, m)
+			body, shape := bodyShape(r, m, allowedDecoy(r, c))
 			w.jrpc(i, genCred(r, c), m, body, shape)
 		}
 		for q := 0; q < 4; q++ {
